@@ -197,9 +197,20 @@ def M_u8_try_from_char(it, ctx, args, st):
 def M_res_into_iter(it, ctx, args, st):
     """Result<T, E> / Option<T> as IntoIterator: the Ok / Some payload, or nothing"""
     v = args[0]
+    byref = isinstance(v, Ptr)          # <&Option<T> as IntoIterator>: yields a reference to the payload
+    if byref:
+        base = v
+        while isinstance(st.deref(base), Ptr):
+            base = st.deref(base)
+        v = st.deref(base)
     hit = 'Ok' if v.decl.name.endswith('Result') else 'Some'
     for s2, i, pl in it.enum_cases(v, st):
-        yield s2, It('list', (pl.fields[0],) if v.decl.variants[i][0] == hit else ())
+        if v.decl.variants[i][0] != hit:
+            yield s2, It('list', ())
+        elif byref:
+            yield s2, It('list', (Ptr(base.addr, base.proj + (('v', i), ('f', 0))),))
+        else:
+            yield s2, It('list', (pl.fields[0],))
 
 
 def M_from_str_trait(it, ctx, args, st):
@@ -1589,6 +1600,72 @@ def it_next_chain(it, st, itv, fr):
 EXTRA_ITER_KINDS.update({'skip': it_next_skip, 'take': it_next_take, 'chain': it_next_chain})
 
 
+# ---- Peekable<I> over any iterator type (model iterators and harness iterators alike): Agg('Peekable', (inner, peeked)) where
+#      peeked is None (nothing buffered) or the buffered Option<Item>
+def M_iter_peekable(it, ctx, args, st):
+    yield st, Agg('Peekable', (args[0], None))
+
+
+def _peek_inner_next(it, ctx, p, I, st):
+    inner = Ptr(p.addr, p.proj + (('f', 0),))
+    yield from it.call_trait(ctx.fr, I, 'std::iter::Iterator', 'next', [], [inner], st)
+
+
+def _peekable_I(ctx):
+    t = strip_refs(ctx.self_ty) if ctx.callee.kind != 'path' else None
+    if t is not None and t[0] == 'path' and t[2]:
+        return t[2][0]
+    ta = ctx.targs
+    if ta:
+        return ta[0]
+    raise Unsupported('Peekable: iterator type not visible at the call')
+
+
+def M_peekable_peek(it, ctx, args, st):
+    p = args[0]
+    while isinstance(st.deref(p), Ptr):
+        p = st.deref(p)
+    pk = st.deref(p)
+    I = _peekable_I(ctx)
+    cell = Ptr(p.addr, p.proj + (('f', 1),))
+
+    def answer(s, buffered):
+        for s2, some in fork_bool(it, s, it.variant_of(buffered, 'Some')):
+            if some:
+                i = buffered.decl.index['Some']
+                yield s2, it.some(Ptr(cell.addr, cell.proj + (('v', i), ('f', 0))))
+            else:
+                yield s2, it.none
+    if pk.fields[1] is not None:
+        yield from answer(st, pk.fields[1])
+        return
+    for s2, r in _peek_inner_next(it, ctx, p, I, st):
+        if is_abnormal(r):
+            yield s2, r
+            continue
+        s2.write(cell, r)
+        yield from answer(s2, r)
+
+
+def M_peekable_next(it, ctx, args, st):
+    p = args[0]
+    while isinstance(st.deref(p), Ptr):
+        p = st.deref(p)
+    pk = st.deref(p)
+    I = _peekable_I(ctx)
+    if pk.fields[1] is not None:
+        st.write(Ptr(p.addr, p.proj + (('f', 1),)), None)
+        yield st, pk.fields[1]
+        return
+    yield from _peek_inner_next(it, ctx, p, I, st)
+
+
+def is_peekable(it, ctx, args, st):
+    v = args[0]
+    v = st.deref_all(v) if isinstance(v, Ptr) else v
+    return isinstance(v, Agg) and v.name == 'Peekable'
+
+
 def M_iter_skip_take(kind):
     def f(it, ctx, args, st):
         n = concrete(args[1])
@@ -2060,10 +2137,12 @@ MODELS = [
     (RES + r'(unwrap_err|expect_err)', M_res_unwrap_err), (OPT + r'(is_some_and|is_none_or)::<.*>', M_is_some_and), (RES + r'(is_ok_and|is_err_and)::<.*>', M_is_some_and),
     (P + r'ops::RangeInclusive::<.*>::new', M_range_inclusive_new), (P + r'ops::(?:range::)?Range(?:Inclusive)?::<.*>::contains::<.*>', M_range_contains),
     (r'<u8 as ' + P + r'convert::TryFrom<char>>::try_from', M_u8_try_from_char),
-    (r'<' + P + r'(?:result::Result|option::Option)<.*> as ' + P + r'iter::IntoIterator>::into_iter', M_res_into_iter, lambda it, ctx, args, st: isinstance(args[0], Enum)),
+    (r'<' + P + r'(?:result::Result|option::Option)<.*> as ' + P + r'iter::IntoIterator>::into_iter', M_res_into_iter, lambda it, ctx, args, st: isinstance(args[0], Enum) or (isinstance(args[0], Ptr) and isinstance(st.deref_all(args[0]), Enum))),
     (r'<(?:[iu](?:8|16|32|64|128|size)|f64|f32|bool) as ' + P + r'str::FromStr>::from_str', M_from_str_trait),
     (P + r'str::<impl str>::starts_with::<&str>', M_str_starts_with_str), (P + r'str::<impl str>::ends_with::<&str>', M_str_ends_with_str),
     (P + r'slice::<impl \[u8\]>::starts_with', M_str_starts_with_str), (P + r'slice::<impl \[u8\]>::ends_with', M_str_ends_with_str),
+    (ITER + r'peekable', M_iter_peekable), (P + r'iter::Peekable::<.*>::peek', M_peekable_peek),
+    (r'<' + P + r'iter::Peekable<.*> as ' + P + r'iter::Iterator>::next', M_peekable_next),
     (ITER + r'skip', M_iter_skip_take('skip')), (ITER + r'take', M_iter_skip_take('take')), (ITER + r'chain::<.*>', M_iter_chain),
     (ITER + r'last', M_iter_last), (ITER + r'nth', M_iter_nth),
     (ITER + r'partition::<.*>', M_partition),
